@@ -181,6 +181,8 @@ def check_context_scheme(o, label, ctx, name, items, with_update):
 
     h = ctx.handler(name)
     disabled = bool(getattr(h, "is_disabled", False))
+    cats = sorted({k.split("__")[0] for k in ctx.to_dict() if k.count("__") == 2 and k.split("__")[0] not in ("all",)}) + ["verif_no_such_category"]
+    cats = [c for c in cats if c not in ctx.schemes()]
     for hs, pw, kw in items:
         inp = {"op": "ctx-identify", "context": label, "scheme": name, "hash": hs}
         try:
@@ -212,6 +214,15 @@ def check_context_scheme(o, label, ctx, name, items, with_update):
             o.check(short_label(label) + ":verify-disabled", ok is False and bad is False, dict(inp, op="ctx-verify"), (ok, bad), "(False, False)")
         else:
             o.check(short_label(label) + ":verify", ok is True and bad is False, dict(inp, op="ctx-verify"), (ok, bad), "(True, False)")
+        # the same for every user category the preset configures (and one it does not): a category changes costs and defaults, never
+        # which of the context's schemes a hash belongs to
+        for cat in cats:
+            try:
+                gc = ctx.identify(hs, category=cat)
+                vc_ = ctx.verify(pw, hs, category=cat, **kw)
+            except Exception as e:  # noqa: BLE001
+                gc, vc_ = errname(e), None
+            o.check(short_label(label) + ":identify-verify-in-category", gc == name and vc_ is (not disabled), dict(inp, op="ctx-category", category=cat), (gc, vc_), (name, not disabled))
     if with_update and items and not disabled:
         hs, pw, kw = items[-1]
         inp = {"op": "ctx-vau", "context": label, "scheme": name, "hash": hs}
